@@ -25,6 +25,7 @@ import (
 // Case lines (byte strings in hex, "-" = empty; see lean/GolibsVerif/Driver/C14.lean):
 //
 //	C14.std.durstr <d>                 time.Duration(d).String()           (model validation)
+//	C14.std.parsedur <text>            time.ParseDuration(text): "err" or the int64 (model validation)
 //	C14.std.fmtu <n>                   strconv.FormatUint(n, 10)
 //	C14.std.parseu16 <s>               strconv.ParseUint(s, 10, 16)
 //	C14.std.join <host> <port>         net.JoinHostPort
@@ -240,6 +241,13 @@ func evalC14Std(f []string) Result {
 			panic("bad duration")
 		}
 		r.Impl = hx([]byte(time.Duration(d).String()))
+	case "C14.std.parsedur":
+		d, err := time.ParseDuration(string(unhx(f[1])))
+		if err != nil {
+			r.Impl = "err"
+		} else {
+			r.Impl = strconv.FormatInt(int64(d), 10)
+		}
 	case "C14.std.fmtu":
 		n, err := strconv.ParseUint(f[1], 10, 64)
 		if err != nil {
@@ -854,6 +862,122 @@ func randUJSONC14(rng *rand.Rand) string {
 	}
 }
 
+
+// ---- texts for time.ParseDuration (op C14.std.parsedur)
+
+// parseDurFixedC14: the malformed stream and the edges of every overflow test of
+// time.ParseDuration (leadingInt: x > 1<<63/10, x > 1<<63; leadingFraction: the
+// overflow flag; v > 1<<63/unit; v > 1<<63 after the fraction; d > 1<<63; the
+// final d > 1<<63-1 for a non-negative text; the uint64 wrap of d += v).
+var parseDurFixedC14 = []string{
+	"", "0", "+0", "-0", "00", "0s", "-0s", "+0s", "0.0s", "0.s", ".0s", ".s", "-.s", "+.s", ".", "-", "+", "--1s", "+-1s", "-+1s", " 1s", "1s ", "1 s",
+	"1", "1.", ".5", "1.5", "s", "h", "1x", "1S", "1H", "1sec", "1d", "1w", "1y", "1hh", "1mm", "1ss", "1sm", "1nss", "1e3s", "1_000s", "0x10s", "1,5s", "1s,",
+	".5s", "1.s", "1.0s", "01s", "001.500s", "+1s", "-1s", "+1.5h", "-1.5h", "1h1h", "1s1h", "1m1s1h", "1h1m1s", "1h1m1.5s", "1.5h1.5m1.5s", "1s1s1s1s1s1s1s1s",
+	"1ns", "1us", "1µs", "1μs", "1ms", "1\xc2\xb5", "1\xb5s", "1\xc2s", "1\xce\xbc", "1\xce\xbcs1\xc2\xb5s", "1µ", "1μ", "1µss", "1ʼs", "1\xc2\xb5s1", "1us1", "1.5µs", "1.5μs", "1.5us",
+	"1.5ns", "0.5ns", "0.9ns", "0.999999999999999999ns", "1.9999999999999999999ns", "0.1us", "0.0001us", "0.0005us", "0.0015us", "1.0000001ms",
+	"9223372036854775807ns", "9223372036854775808ns", "-9223372036854775808ns", "+9223372036854775808ns", "9223372036854775809ns", "-9223372036854775809ns",
+	"18446744073709551615ns", "18446744073709551616ns", "922337203685477580ns", "922337203685477581ns", "9223372036854775800ns", "92233720368547758080ns",
+	"09223372036854775807ns", "009223372036854775808ns", "9223372036854775807.9ns", "9223372036854775808.0ns", "9223372036854775808.9ns", "-9223372036854775808.9ns",
+	"9223372036854775us", "9223372036854776us", "9223372036854775.807us", "9223372036854775.808us", "9223372036854775.809us", "-9223372036854775.808us", "-9223372036854775.809us",
+	"9223372036854ms", "9223372036855ms", "9223372036854.775807ms", "9223372036854.775808ms", "-9223372036854.775808ms", "-9223372036854.775809ms",
+	"9223372036s", "9223372037s", "9223372036.854775807s", "9223372036.854775808s", "-9223372036.854775808s", "-9223372036.854775809s", "9223372036.8547758079s",
+	"153722867m", "153722868m", "153722867.28m", "153722867.2808m", "153722867.280912930m", "153722867.280912931m", "-153722867.280912931m",
+	"2562047h", "2562048h", "2562047.788h", "2562047.7880152155h", "2562047.78801521550h", "2562047.788015215502h", "-2562047.788015215502h", "2562047.79h",
+	"2562047h47m16.854775807s", "2562047h47m16.854775808s", "-2562047h47m16.854775808s", "-2562047h47m16.854775809s", "2562047h47m17s", "2562047h48m", "2562048h0m0s",
+	// d += v wraps: 2^63 + 2^63 = 0 (mod 2^64) is accepted by the real function
+	"9223372036854775808ns9223372036854775808ns", "-9223372036854775808ns9223372036854775808ns", "9223372036854775808ns9223372036854775807ns",
+	"9223372036854775807ns1ns", "9223372036854775807ns2ns", "-9223372036854775807ns1ns", "-9223372036854775807ns2ns", "4611686018427387904ns4611686018427387904ns",
+	"4611686018427387904ns4611686018427387905ns", "9223372036854775808ns9223372036854775808ns1ns", "9223372036854775808ns9223372036854775808ns9223372036854775808ns",
+	"2562047h2562047h", "2562047h47m16s854775807ns", "2562047h47m16s854775808ns", "-2562047h47m16s854775808ns", "9223372036s854775807ns", "9223372036s854ms775us807ns", "9223372036s854ms775us808ns",
+	// fractions: the overflow flag of leadingFraction, scale, float64 rounding
+	"0.9223372036854775807s", "0.9223372036854775808s", "0.9223372036854775809s", "0.92233720368547758079s", "0.92233720368547758080s", "0.922337203685477580s", "0.922337203685477581s",
+	"0.9223372036854775807999999h", "0.99999999999999999999999999h", "0.999999999999999999h", "0.9999999999999999999h", "1.00000000000000000000000000001h", "0.00000000000000000000000000001h",
+	"0.3h", "0.7h", "0.1h", "0.01h", "0.001h", "0.0001h", "1.1h", "1.000000000001h", "0.000000000000277h", "0.000000000000278h", "0.0000000000002777777777777778h",
+	"0.3m", "0.7m", "0.1m", "0.0000000000166m", "0.0000000000167m", "0.016666666666666666m", "0.1s", "0.2s", "0.3s", "0.7s", "0.0000000001s", "0.0000000005s", "0.0000000009s", "0.00000000099999s", "0.0000000010s",
+	"1.000000000s", "1.0000000000s", "1.000000001s", "1.0000000001s", "1.999999999s", "1.9999999999s", "1.99999999999999999999s", "3.000000001h", "3.000000000001h",
+	"100.001ms", "999.999µs", "999.999999ms", "59.999999999s", "1m59.999999999s", "1h59m59.999999999s",
+}
+
+func hugeFractionsC14() (res []string) {
+	for _, n := range []int{18, 19, 20, 21, 22, 23, 24, 30, 50, 100, 307, 308, 309, 310, 323, 324, 330, 400, 700} {
+		z := strings.Repeat("0", n)
+		for _, u := range []string{"ns", "s", "h"} {
+			res = append(res, "0."+z+"1"+u, "1."+z+"9"+u, "0."+z+"9223372036854775807"+u, "0."+strings.Repeat("9", n)+u, "0.5"+z+u, "0."+z+u)
+		}
+	}
+	return res
+}
+
+var unitsC14 = []string{"ns", "us", "µs", "μs", "ms", "s", "m", "h"}
+
+func randDigitsC14(rng *rand.Rand, n int) string {
+	b := make([]byte, n)
+	for i := range b {
+		b[i] = byte('0' + rng.IntN(10))
+	}
+	return string(b)
+}
+
+// randParseDurTextC14: a text over the grammar [-+]?([0-9]*(\.[0-9]*)?unit)+ with numbers
+// around the overflow bounds and fractions of every length, sometimes mutated.
+func randParseDurTextC14(rng *rand.Rand) string {
+	switch rng.IntN(8) {
+	case 0:
+		return time.Duration(randDurationC14(rng)).String()
+	case 1:
+		return timeutil.Duration(randDurationC14(rng)).String()
+	case 2:
+		return mutateC14(rng, time.Duration(randDurationC14(rng)).String(), "0123456789.-+hmsnuµ ")
+	case 3:
+		return mutateC14(rng, pick(rng, parseDurFixedC14...), "0123456789.-+hmsnu\xc2\xb5\xce\xbc")
+	}
+	var sb strings.Builder
+	sb.WriteString(pick(rng, "", "", "", "-", "+"))
+	ng := 1 + rng.IntN(3)
+	if rng.IntN(10) == 0 {
+		ng += rng.IntN(6)
+	}
+	for g := 0; g < ng; g++ {
+		unit := pick(rng, unitsC14...)
+		if rng.IntN(40) == 0 {
+			unit = pick(rng, "", "x", "S", "sec", "d", "hm", "\xc2\xb5", "µ", "ss")
+		}
+		per := map[string]uint64{"ns": 1, "us": 1e3, "µs": 1e3, "μs": 1e3, "ms": 1e6, "s": 1e9, "m": 6e10, "h": 36e11}[unit]
+		if per == 0 {
+			per = 1
+		}
+		lim := uint64(1<<63) / per
+		switch rng.IntN(8) {
+		case 0: // around the bound v > 1<<63/unit
+			sb.WriteString(strconv.FormatUint(lim-2+uint64(rng.IntN(5)), 10))
+		case 1: // around half of it (two groups sum to the bound)
+			sb.WriteString(strconv.FormatUint(lim/2-2+uint64(rng.IntN(5)), 10))
+		case 2:
+			sb.WriteString(strconv.FormatUint(rng.Uint64()>>uint(rng.IntN(64)), 10))
+		case 3:
+			sb.WriteString(pick(rng, "", "0", "00", "000000000000000000000"))
+		default:
+			sb.WriteString(strconv.Itoa(rng.IntN(pick(rng, 3, 60, 1000, 100000))))
+		}
+		switch rng.IntN(6) {
+		case 0:
+			sb.WriteString(".")
+		case 1:
+			sb.WriteString("." + randDigitsC14(rng, 1+rng.IntN(9)))
+		case 2:
+			sb.WriteString("." + randDigitsC14(rng, 1+rng.IntN(30)))
+		case 3:
+			sb.WriteString("." + strings.Repeat("0", rng.IntN(25)) + randDigitsC14(rng, 1+rng.IntN(21)))
+		}
+		sb.WriteString(unit)
+	}
+	s := sb.String()
+	if rng.IntN(12) == 0 {
+		s = mutateC14(rng, s, "0123456789.-+hmsnu ")
+	}
+	return s
+}
+
 func genC14(rng *rand.Rand, tier string) (cases []string) {
 	scale := 1
 	if tier == "thorough" {
@@ -871,6 +995,27 @@ func genC14(rng *rand.Rand, tier string) (cases []string) {
 		cases = append(cases, mkDurCaseC14(d))
 		if i%2 == 0 {
 			add("C14.std.durstr %d", randDurationC14(rng))
+		}
+	}
+	// time.ParseDuration: the texts of both String methods on every boundary, the
+	// malformed / overflow stream, then random texts
+	for _, d := range boundaryDurationsC14() {
+		add("C14.std.parsedur %s", hx([]byte(time.Duration(d).String())))
+		if g := timeutil.Duration(d).String(); g != time.Duration(d).String() {
+			add("C14.std.parsedur %s", hx([]byte(g)))
+		}
+	}
+	for _, t := range parseDurFixedC14 {
+		add("C14.std.parsedur %s", hx([]byte(t)))
+	}
+	for _, t := range hugeFractionsC14() {
+		add("C14.std.parsedur %s", hx([]byte(t)))
+	}
+	for i := 0; i < 600*scale; i++ {
+		t := randParseDurTextC14(rng)
+		add("C14.std.parsedur %s", hx([]byte(t)))
+		if i%6 == 0 { // the "drop" clauses of DUR-RT: the same text with a zero unit appended
+			add("C14.std.parsedur %s", hx([]byte(t+pick(rng, "0s", "0m", "0m0s", "0h", "0", "0.0s", ".0s"))))
 		}
 	}
 	// host:port
@@ -985,7 +1130,7 @@ func candsC14(c string) (res []string) {
 		if f[2] != "0" {
 			res = append(res, fmt.Sprintf("C14.hp %s 0", f[1]), fmt.Sprintf("C14.hp %s %d", f[1], atoi(f[2])/10))
 		}
-	case "C14.php", "C14.std.split", "C14.std.parseu16":
+	case "C14.php", "C14.std.split", "C14.std.parseu16", "C14.std.parsedur":
 		for _, s := range smallerStringsC14(string(unhx(f[1]))) {
 			res = append(res, f[0]+" "+hx([]byte(s)))
 		}
